@@ -46,16 +46,20 @@ class Recorder:
             before = o.status
             if rec is not None:
                 rec.on_execute_begin(o, before)
-            orig_exec(o, silent)
-            if rec is not None:
-                rec.on_execute_end(o, before)
+            try:
+                orig_exec(o, silent)
+            finally:
+                if rec is not None:
+                    rec.on_execute_end(o, before)
 
         def cancel(o, silent=False, source=''):
             rec = Order._vf_recorder
             before = o.status
-            orig_cancel(o, silent, source)
-            if rec is not None:
-                rec.on_cancel(o, before)
+            try:
+                orig_cancel(o, silent, source)
+            finally:
+                if rec is not None:
+                    rec.on_cancel(o, before)
 
         Order.__init__, Order.execute, Order.cancel = __init__, execute, cancel
         Order._vf_wrapped = True
